@@ -136,7 +136,7 @@ def _run_live(world: World, plan):
             since = loop.time() - (notes[-1][0] if notes else loop.time())
             if since > 1e-6:        # (fields set in the instant of the transition itself belong to it)
                 last['reported'] = True
-                world.violate('C03.refusal_side_effect', what='field changed while the transfer rests', state=snap[0],
+                world.violate('C03.side_effect', what='field changed while the transfer rests', state=snap[0],
                               fields=changed, direction=gdir)
         last['snap'] = snap
         last['notes'] = len(notes)
